@@ -991,6 +991,21 @@ def run_serve(
     try:
         result = loop.run_until_complete(main())
         res.rc = int(result.returncode.value)
+        # how the process ended, and what the project itself says about the requested targets: whether
+        # the plan as it is on disk now has a step that builds them (an oracle from the project description,
+        # top-level plan only; "unknown" when the plan does not settle it)
+        targets = sorted(cfg.get("targets", []))
+        roles = []
+        try:
+            plan = project["scripts"].get("./plan.py", {})
+            ops = plan.get("versions", {}).get(version_of(world.read(plan.get("on", "plan.py"))), []) if isinstance(plan, dict) else plan
+            outs = {p_ for op in ops if op and op[0] == "step" and len(op) > 2 for p_ in op[2].get("out", [])}
+            stat = {p_ for op in ops if op and op[0] == "static" for p_ in op[1]}
+            roles = [[t, "output" if t in outs else "static" if t in stat else "unknown"] for t in targets]
+        except Exception:  # noqa: BLE001
+            roles = [[t, "unknown"] for t in targets]
+        ses.emit("proc_end", rc=res.rc, target_roles=roles,
+                 invalid_target=any(tag_ == "ERROR" and "Invalid build target" in msg_ for tag_, msg_ in ses.reports))
     except Hang as exc:
         res.hang = True
         ses.emit("hang", why=str(exc)[:200])
